@@ -400,6 +400,8 @@ def gen_stream_case(rng, cid, focus, backend='nr', flex_opts=None, lineno=None, 
             k = rng.pick(kinds)
             if k in ('less', 'more') and did_unput:
                 continue        # yytext is only defined before the stream is edited through yyunput / yyinput
+            if k in ('input', 'unput', 'unput_nl') and any(o[0] == 'more' for o in ops):
+                continue        # yymore() keeps "the current yytext": the stream is not edited after it in the same action
             if k == 'begin':
                 ops.append(('begin', rng.rng(1, nsc)))
             elif k == 'push':
